@@ -243,11 +243,8 @@ def run(chk, prog):
             if st["k"] == "assign" and st["rv"]["k"] == "binop" and st["rv"]["op"] in ("Ne", "Eq") and len(st["lhs"]) == 1:
                 if 200 in (const_int(st["rv"]["a"]), const_int(st["rv"]["b"])):
                     cmps.append((st["lhs"][0], st["rv"]["op"]))
-    oks = []
-    for b in hc.reachable:
-        for st in hc.stmts(b):
-            if st["k"] == "assign" and st["lhs"][0] == 0 and st["rv"]["k"] == "agg" and st["rv"].get("variant") == "Ok":
-                oks.append(b)
+    from ..flow import result_blocks
+    oks = result_blocks(hc, "Ok")
     good = bool(oks) and len(cmps) >= len(rf)
     if good:
         for okb in oks:
